@@ -11,11 +11,13 @@ specification that never saw a faulted input).
 """
 
 import copy
+import glob
+import os
 import random
 import resource
 import tracemalloc
 
-from vsim import steps, world, specgen, shrink, wire, graph
+from vsim import VERIF, steps, world, specgen, shrink, wire, graph
 from vsim.digest import ProbeSet, first_difference
 from vsim.rng import mix
 from vsim.runner import Engine, Result
@@ -26,6 +28,11 @@ MEMORY_BASE = 2 * 1024 * 1024
 MEMORY_PER_BYTE = 8 * 1024
 RUN_TICKS = 8000000
 AMPLIFY_ROUNDS = 80
+CLIMB_MAX_LEN = 160
+CLIMB_KEEP = 6
+CLIMB_CHILDREN = 8
+CLIMB_GENERATIONS = 200
+CLIMB_PATIENCE = 25
 _RLIMIT_SET = [False]
 
 
@@ -76,6 +83,178 @@ class C08(Engine):
                          stuck_after_s=600, hang_confirm_s=900),
     }
 
+    # -- cost-guided search ------------------------------------------------------
+
+    def plan(self, tier, seed, runs):
+        # (First: on a loaded machine the wall cap cuts the end of the plan.)
+        items = [{'kind': 'climb', 'seed': mix(seed, 'C08-climb', index)}
+                 for index in range(max(16, runs // 12))]
+        items.extend(Engine.plan(self, tier, seed, runs))
+
+        return items
+
+    def run_item(self, item):
+        if item['kind'] == 'climb':
+            return self.run_climb(item)
+
+        return self.execute(self.gen_case(item['seed']))
+
+    def run_climb(self, item):
+        """The step clock as feedback: a population of inputs of one type,
+        starting from valid encodings of small values, is mutated for some
+        generations; the inputs that cost the most ticks per byte survive.
+        Super-linear decoders (work doubling with every tampered length at
+        another nesting level) are climbed until the liveness bound of the
+        property is exceeded - which single faults on valid traffic do not
+        reach.  Deterministic: everything derives from the item seed."""
+
+        set_rlimit()
+        result = Result()
+        seed = item['seed']
+        knobs = random.Random(mix(seed, 'knobs'))
+        codec = knobs.choice(CODECS)
+        corpus = sorted(glob.glob(os.path.join(VERIF, 'corpus', 'hot*.asn')))
+
+        if corpus and knobs.random() < 0.4:
+            with open(knobs.choice(corpus)) as fin:
+                text = fin.read()
+
+            spec = {'modules': [], 'corpus': True}
+            outcome = world.parse(text)
+            parsed = outcome[1] if outcome[0] == 'ok' else None
+        else:
+            rng = random.Random(mix(seed, 'features'))
+            features = sorted(set(
+                [f for f in specgen.ALL_FEATURES if rng.random() < 0.4]
+                + ['ext', 'ext_groups', 'choice', 'seqof', 'seq', 'int',
+                   'optional', 'refs', 'recursion']))
+            spec, text, parsed = world.gen_world(seed, codec,
+                                                 features=features)
+
+        if parsed is None:
+            result.stats['rejected-program'] += 1
+
+            return result
+
+        compiled = world.compile_text(text, codec)
+        result.log.append(['climb-compile', codec, compiled[0]])
+
+        if compiled[0] != 'ok':
+            result.stats['rejected-program'] += 1
+
+            return result
+
+        receiver = compiled[1]
+        values = random.Random(mix(seed, 'values'))
+        drawn = world.draw_messages(parsed, values, 12, codec, max_depth=3)
+        by_type = {}
+
+        for type_name, value in drawn:
+            outcome, _ = steps.call(
+                lambda: receiver.encode(type_name, value),
+                world.encode_budget())
+
+            if outcome[0] == 'ok' and 0 < len(outcome[1]) <= CLIMB_MAX_LEN:
+                by_type.setdefault(type_name, []).append(outcome[1])
+
+        if not by_type:
+            return result
+
+        # The type whose valid encodings are the longest per value has the
+        # most structure to tamper with.
+        type_name = knobs.choice(sorted(by_type))
+        faults = random.Random(mix(seed, 'faults'))
+        population = {}
+        result.stats['climbs'] += 1
+
+        def evaluate(data):
+            budget = world.decode_budget(len(data))
+
+            try:
+                outcome, ticks = steps.call(
+                    lambda: receiver.decode(type_name, data), budget)
+            except MemoryError:
+                outcome, ticks = ['memory-error'], 0
+
+            result.ticks += ticks
+            result.evaluations += 1
+            result.stats['climb-decodes'] += 1
+            detail = {'type': type_name, 'delivered': data.hex()[:600],
+                      'length': len(data), 'found_by': 'cost-guided search'}
+            case = {'spec': spec, 'codec': codec, 'seed': seed,
+                    'memory': False,
+                    'text': text if spec.get('corpus') else None,
+                    'messages': [[type_name, None,
+                                  {'kind': 'raw', 'data': data.hex()}]]}
+
+            if outcome[0] == 'hang':
+                detail.update({'budget': budget, 'site': outcome[1]})
+                result.violation('hang', {'codec': codec, 'site': outcome[1]},
+                                 detail, case)
+            elif outcome[0] == 'memory-error' or (
+                    outcome[0] == 'err'
+                    and outcome[1] == 'builtins.MemoryError'):
+                result.violation('memory', {'codec': codec}, detail, case)
+
+            result.key(codec, type_name, data.hex())
+
+            # Fraction of the liveness budget used.
+            return ticks / float(budget)
+
+        for data in by_type[type_name][:CLIMB_KEEP]:
+            population[data] = evaluate(data)
+
+        best_start = max(population.values())
+
+        stale = 0
+        best_so_far = best_start
+
+        for generation in range(CLIMB_GENERATIONS):
+            if result.violations or result.ticks > 3 * RUN_TICKS \
+                    or stale > CLIMB_PATIENCE:
+                break
+
+            parents = sorted(population, key=lambda d: (-population[d], d))
+            parents = parents[:CLIMB_KEEP]
+
+            for parent in parents:
+                for _ in range(CLIMB_CHILDREN):
+                    fault = wire.draw_fault(faults, codec, 1.0)
+                    other = faults.choice(parents)
+                    child = wire.mutate(parent, fault, other)
+
+                    if not child or len(child) > CLIMB_MAX_LEN \
+                            or child in population:
+                        continue
+
+                    population[child] = evaluate(child)
+
+                    if result.violations:
+                        break
+
+                if result.violations:
+                    break
+
+            keep = sorted(population, key=lambda d: (-population[d], d))
+            population = {d: population[d] for d in keep[:CLIMB_KEEP * 3]}
+            best = population[keep[0]]
+
+            if best > best_so_far * 1.02:
+                best_so_far = best
+                stale = 0
+            else:
+                stale += 1
+
+        best = max(population.values())
+        result.stats['max-climb-budget-used-percent'] = int(100 * best)
+        result.stats['max-climb-gain-percent'] = int(
+            100 * best / max(best_start, 1e-9))
+        result.log.append(['climb', codec, type_name,
+                           int(10000 * best_start), int(10000 * best),
+                           len(population)])
+
+        return result
+
     def gen_case(self, run_seed):
         knobs = random.Random(mix(run_seed, 'knobs'))
         codec = knobs.choice(CODECS)
@@ -114,7 +293,7 @@ class C08(Engine):
         set_rlimit()
         result = Result()
         codec = case['codec']
-        text = specgen.render(case['spec'])
+        text = case.get('text') or specgen.render(case['spec'])
         numeric_enums = case.get('numeric_enums', False)
         receiver = world.compile_text(text, codec, numeric_enums)
         reference = world.compile_text(text, codec, numeric_enums)
@@ -389,6 +568,9 @@ class C08(Engine):
                         yield dict(case, messages=reduced)
 
         keep = [message[0] for message in messages]
+
+        if case.get('text'):
+            return      # a corpus module: kept as it is
 
         for spec in shrink.shrink_spec(case['spec'], keep=keep):
             yield dict(case, spec=spec)
